@@ -196,3 +196,45 @@ Proof.
     + destruct (r <? S a); [simpl; intuition|]. rewrite IH. simpl. intuition discriminate.
     + simpl; intuition.
 Qed.
+
+(* Detection bound: once the device stops answering, the loss is reported after at most
+   retries+1 further keep-alives. *)
+Lemma sends_dead_run r : forall n a, a <= r ->
+  cnt Send (trace r a (repeat IFail n)) <= S r - a.
+Proof.
+  induction n as [|n IH]; intros a Ha; cbn [repeat trace].
+  - apply Nat.le_0_l.
+  - destruct (r <? S a) eqn:E.
+    + change (cnt Send [Send; Failure]) with 1. lia.
+    + apply Nat.ltb_ge in E. change (Send :: ?l) with ([Send] ++ l).
+      rewrite cnt_app. specialize (IH (S a) E). change (cnt Send [Send]) with 1. lia.
+Qed.
+
+Lemma sends_until_detected r : forall pre a n, a <= r -> Forall sendres pre ->
+  cnt Send (trace r a (pre ++ repeat IFail n)) <= length pre + S r.
+Proof.
+  induction pre as [|x t IH]; intros a n Ha F; cbn [app].
+  - pose proof (sends_dead_run r n a Ha). change (length (@nil it)) with 0. lia.
+  - apply Forall_cons_iff in F. destruct F as [Hx F].
+    destruct Hx as [-> | ->]; cbn [trace length].
+    + change (Send :: ?l) with ([Send] ++ l). rewrite cnt_app.
+      specialize (IH 0 n (Nat.le_0_l r) F). change (cnt Send [Send]) with 1. lia.
+    + destruct (r <? S a) eqn:E.
+      * change (cnt Send [Send; Failure]) with 1. lia.
+      * apply Nat.ltb_ge in E. change (Send :: ?l) with ([Send] ++ l). rewrite cnt_app.
+        specialize (IH (S a) n E F). change (cnt Send [Send]) with 1. lia.
+Qed.
+
+Lemma in_cnt_pos x : forall l, In x l -> 1 <= cnt x l.
+Proof.
+  induction l as [|y l IH]; intros H; [destruct H|].
+  unfold cnt in *. cbn [filter]. destruct H as [-> | H].
+  - destruct x; cbn; lia.
+  - specialize (IH H). destruct (obs_eqb x y); cbn [length]; lia.
+Qed.
+
+Lemma in_cnt_failure_one r h : In Failure (trace r 0 h) -> cnt Failure (trace r 0 h) = 1.
+Proof.
+  intro I. pose proof (in_cnt_pos _ _ I).
+  destruct (shape_terminal _ (trace_shape r h 0)) as [B _]. lia.
+Qed.
